@@ -1,8 +1,284 @@
-"""C11 — bounded run-time contracts only (no proof obligations built yet); see rtc/C11.py and DESIGN.md section 8."""
-from contracts._bounded_only import make_main
+"""C11 — periodic local grids contain every periodic image inside the sphere exactly once (DESIGN 8/C11).
 
-main = make_main("C11", ["bounded layer only: real functions under executable postconditions on a generated family (rtc/C11.py); nothing is proved"])
+PeriodicGrid.get_localgrid is executed symbolically for point dimensions 1 (flat), 2, 3 and 1..dim lattice vectors (array shapes concrete,
+contents symbolic), on an object that satisfies the constructor's postcondition (reciprocal vectors G with G A^T = I, plane spacings
+s_k = 1/|g_k| > 0, fractional extent fmin_k <= g_k.x_i <= fmax_k).  itertools.product and cKDTree enter through assumed contracts.
+  completeness   if |x_i - (c + sum_k j_k a_k)| <= r for integers j, then ilc_min_k <= j_k <= ilc_max_k  (lemma chain: reciprocal identity,
+                 Cauchy-Schwarz, spacing, integrality of ceil/floor) -- for any sign/orientation of the lattice vectors
+  image          for the translation j the centre handed to the tree is c + sum j_k a_k, the stored position is x_idx - sum j_k a_k,
+                 weights and indices are the parent's; translations without hits are skipped; an empty result is an empty LocalGrid
+  constructor    (flat and K = 1 cases) establishes G A^T = I, positive spacings, and the extent of the fractional coordinates.
+Bounded layer: brute-force image enumeration over random cells (rtc/C11.py).
+"""
+from __future__ import annotations
+
+import os
+
+import z3
+
+from pyvc import framework
+from pyvc import interp as I
+from pyvc import npmodel as M
+from pyvc import terms as T
+
+MOD = "grid.periodicgrid"
+IS, RS = z3.IntSort(), z3.RealSort()
+N = z3.Int("N")
+rad = z3.Real("radius")
+
+
+def sym_matrix(name, rows, cols):
+    return [[z3.Real(f"{name}{r}{c}") for c in range(cols)] for r in range(rows)]
+
+
+def arr2(mat):
+    rows, cols = len(mat), len(mat[0])
+    return I.Arr((rows, cols), lambda r, c: M.select_const(r, [lambda row=row: M.select_const(c, [lambda v=v: v for v in row]) for row in mat]), "real")
+
+
+def arr1(vec, dtype="real"):
+    return I.Arr((len(vec),), lambda k: M.select_const(k, [lambda v=v: v for v in vec]), dtype)
+
+
+def localgrid_case(chk, dim, K, flat):
+    eng = chk.eng
+    cls = eng.get_class(MOD, "PeriodicGrid")
+    fq = f"{MOD}.PeriodicGrid.get_localgrid"
+    tag = f"{'1f' if flat else str(dim) + 'd'}-K{K}"
+    A = sym_matrix("a", K, dim)
+    G = sym_matrix("g", K, dim)
+    s = [z3.Real(f"s{k}") for k in range(K)]
+    fmin = [z3.Real(f"fmin{k}") for k in range(K)]
+    fmax = [z3.Real(f"fmax{k}") for k in range(K)]
+    c = [z3.Real(f"c{d}") for d in range(dim)]
+    x = [z3.Real(f"x{d}") for d in range(dim)]          # a generic grid point x_i
+    j = [z3.Int(f"j{k}") for k in range(K)]
+    P = z3.Function("P", IS, IS, RS)
+    Wt = z3.Function("W", IS, RS)
+    Q = z3.Function("hit", IS, IS)
+    cnt = z3.Int("hits")
+    k0 = z3.Int("k0")
+    log = {}
+
+    def product(eng_, *ranges, **kw):
+        log["ranges"] = list(ranges)
+        return [tuple(j)]
+
+    def query(eng_, center, radius, p=None):
+        log["qcenter"], log["qradius"] = center, radius
+        return HitList()
+
+    class HitList:
+        pass
+    base_array = eng.models["numpy.array"].fn
+
+    def array(eng_, v, dtype=None, **kw):
+        if isinstance(v, HitList):
+            return I.Arr((cnt,), lambda k: Q(T.zi(k)), "int")
+        return base_array(eng_, v, dtype=dtype, **kw)
+
+    def thunk(eng_):
+        eng_.externals["itertools.product"] = product
+        eng_.models["numpy.array"] = I.Model("numpy.array", array)
+        try:
+            eng_.assume(z3.And(N >= 1, rad >= 0, cnt >= 1, cnt <= N, k0 >= 0, k0 < cnt, Q(k0) >= 0, Q(k0) < N))
+            g = I.Obj(cls)
+            if flat:
+                g.fields.update(_points=I.Arr((N,), lambda i: P(T.zi(i), 0), "real"), _realvecs=arr1([A[0][0]]), _recivecs=arr1([G[0][0]]), _spacings=arr1(s))
+                center = c[0]
+            else:
+                g.fields.update(_points=I.Arr((N, dim), lambda i, d: P(T.zi(i), T.zi(d)), "real"), _realvecs=arr2(A), _recivecs=arr2(G), _spacings=arr1(s))
+                center = arr1(c)
+            g.fields.update(_weights=I.Arr((N,), lambda i: Wt(T.zi(i)), "real"), _frac_intvls=arr2([[fmin[k], fmax[k]] for k in range(K)]),
+                            _kdtree=I.Opaque("kdtree", query_ball_point=I.Model("query_ball_point", query)))
+            lg = eng_.call_method(g, "get_localgrid", center, rad)
+            return lg
+        finally:
+            eng_.externals.pop("itertools.product", None)
+            eng_.models["numpy.array"] = I.Model("numpy.array", base_array)
+
+    outs = chk.explore(f"get_localgrid/{tag}", thunk, func=fq)
+    rets = [o for o in outs if o.kind == "return"]
+    chk.add(f"get_localgrid/{tag}/post/returns", [], z3.BoolVal(bool(rets)), func=fq, meta={"replay": {"dim": dim, "K": K, "flat": flat}})
+    rep = {"dim": dim, "K": K, "flat": flat}
+    for oi, o in enumerate(rets):
+        lg = o.value
+        hy = list(o.pc)
+        sfx = f"@{oi}" if len(rets) > 1 else ""
+        ranges = log["ranges"]
+        chk.add(f"get_localgrid/{tag}/post/one-range-per-lattice-vector{sfx}", [], z3.BoolVal(len(ranges) == K), func=fq, meta={"replay": rep})
+        if len(ranges) != K:
+            continue
+        # ---------------- constructor postcondition (hypotheses on the object) ----------------
+        dot = lambda u, v: sum(a_ * b_ for a_, b_ in zip(u, v))
+        inv = []
+        for k in range(K):
+            for l in range(K):
+                inv.append(dot(G[k], A[l]) == (1 if k == l else 0))                  # G A^T = I
+            inv += [s[k] > 0, s[k] * s[k] * dot(G[k], G[k]) == 1]                  # spacing of lattice planes = 1/|g_k|
+            inv += [fmin[k] <= dot(G[k], x), dot(G[k], x) <= fmax[k]]             # fractional extent covers the generic point
+        # ---------------- completeness ----------------
+        delta = [sum(z3.ToReal(j[k]) * A[k][d] for k in range(K)) for d in range(dim)]
+        dvec = [x[d] - c[d] - delta[d] for d in range(dim)]
+        inside = dot(dvec, dvec) <= rad * rad
+        for k in range(K):
+            lo = T.zi(ranges[k].start)
+            hi = T.zi(T.sub(ranges[k].stop, 1))
+            gd = dot(G[k], dvec)
+            gx, gc, jr = dot(G[k], x), dot(G[k], c), z3.ToReal(j[k])
+            L = lemmas(chk, dim)
+            # each step is an instance of a generic lemma (proved once, over fresh variables) or a small fact with exactly the hypotheses it needs
+            recip = [dot(G[k], A[l]) == (1 if k == l else 0) for l in range(K)]
+            chk.add(f"get_localgrid/{tag}/post/complete-along-vector{k}/have:reciprocal-identity{sfx}", recip, gd == gx - gc - jr, kind="lemma", func=fq, meta={"replay": rep})
+            facts = [gd == gx - gc - jr,
+                     L["cs"](G[k], dvec),                                                           # (g.d)^2 <= |g|^2 |d|^2
+                     L["scale"](gd, dot(G[k], G[k]), dot(dvec, dvec), s[k], rad),                  # => s^2 (g.d)^2 <= r^2
+                     L["abs"](s[k] * gd, rad),                                                      # => |s g.d| <= r
+                     L["div"](gd, s[k], rad)]                                                       # => |g.d| <= r/s
+            need = [s[k] > 0, s[k] * s[k] * dot(G[k], G[k]) == 1, fmin[k] <= gx, gx <= fmax[k], inside, rad >= 0]
+            chk.chain(f"get_localgrid/{tag}/post/complete-along-vector{k}{sfx}", hy + need + facts,
+                      [("bounds-on-j", z3.And(jr >= fmin[k] - gc - rad / s[k], jr <= fmax[k] - gc + rad / s[k]))],
+                      z3.And(lo <= j[k], j[k] <= hi), func=fq, meta={"replay": rep})
+        # ---------------- the image built for translation j ----------------
+        qc = log["qcenter"]
+        qcv = [T.zr(qc.fn(d)) for d in range(dim)] if not flat else [T.zr(qc.fn(0))]
+        chk.add(f"get_localgrid/{tag}/post/tree-queried-at-displaced-centre{sfx}", hy, z3.And(T.zr(log["qradius"]) == rad, *[qcv[d] == c[d] + delta[d] for d in range(dim)]),
+                func=fq, meta={"replay": rep})
+        lp, lw, li = lg.fields["_points"], lg.fields["_weights"], lg.fields["_indices"]
+        pos = [T.zr(lp.fn(k0, d)) for d in range(dim)] if not flat else [T.zr(lp.fn(k0))]
+        chk.add(f"get_localgrid/{tag}/post/stored-position-is-parent-plus-translation{sfx}", hy,
+                z3.And(T.zi(lp.shape[0]) == cnt, *[pos[d] == P(Q(k0), d) - delta[d] for d in range(dim)]), func=fq, meta={"replay": rep})
+        chk.add(f"get_localgrid/{tag}/post/parent-weight-and-index{sfx}", hy, z3.And(T.zr(lw.fn(k0)) == Wt(Q(k0)), T.zi(li.fn(k0)) == Q(k0)), func=fq,
+                meta={"replay": rep})
+        chk.add(f"get_localgrid/{tag}/post/result-is-LocalGrid-with-centre{sfx}", [], z3.BoolVal(lg.cls.name == "LocalGrid"), func=fq, meta={"replay": rep})
+        chk.canary(f"get_localgrid/{tag}{sfx}", hy + inv + [inside])
+    return log
+
+
+_LEMMAS = {}
+
+
+def lemmas(chk, dim):
+    """Generic lemmas over fresh variables, proved once per run; each returns its instance (hypothesis => conclusion) at given terms."""
+    if ("made", dim) in _LEMMAS and _LEMMAS[("made", dim)] is chk:
+        return _LEMMAS[dim]
+    fq = f"{MOD}.PeriodicGrid.get_localgrid"
+    u = [z3.Real(f"lu{d}") for d in range(dim)]
+    v = [z3.Real(f"lv{d}") for d in range(dim)]
+    dot = lambda a_, b_: sum(x_ * y_ for x_, y_ in zip(a_, b_))
+    cs_goal = dot(u, v) * dot(u, v) <= dot(u, u) * dot(v, v)
+    chk.add(f"lemma/cauchy-schwarz-{dim}d", [], cs_goal, kind="lemma", func=fq)
+    p, q, w, sv, r_ = z3.Reals("lp lq lw ls lr")
+    scale_h, scale_c = z3.And(p * p <= q * w, sv * sv * q == 1, w <= r_ * r_, sv > 0), sv * sv * p * p <= r_ * r_
+    abs_h, abs_c = z3.And(p * p <= r_ * r_, r_ >= 0), z3.And(p <= r_, -p <= r_)
+    div_h, div_c = z3.And(sv * p <= r_, -(sv * p) <= r_, sv > 0), z3.And(p <= r_ / sv, -p <= r_ / sv)
+    if ("generic", "made") not in _LEMMAS or _LEMMAS[("generic", "made")] is not chk:
+        chk.add("lemma/scale-by-spacing", [scale_h], scale_c, kind="lemma", func=fq)
+        chk.add("lemma/square-bound-gives-absolute-bound", [abs_h], abs_c, kind="lemma", func=fq)
+        chk.add("lemma/divide-by-positive-spacing", [div_h], div_c, kind="lemma", func=fq)
+        _LEMMAS[("generic", "made")] = chk
+
+    def inst(h, c_, vs):
+        return lambda *ts: z3.Implies(z3.substitute(h, *zip(vs, ts)), z3.substitute(c_, *zip(vs, ts)))
+    out = {
+        "cs": lambda a_, b_: z3.substitute(cs_goal, *(list(zip(u, a_)) + list(zip(v, b_)))),
+        "scale": inst(scale_h, scale_c, [p, q, w, sv, r_]),
+        "abs": lambda t_, r2: z3.Implies(z3.And(t_ * t_ <= r2 * r2, r2 >= 0), z3.And(t_ <= r2, -t_ <= r2)),
+        "div": lambda t_, s_, r2: z3.Implies(z3.And(s_ * t_ <= r2, -(s_ * t_) <= r2, s_ > 0), z3.And(t_ <= r2 / s_, -t_ <= r2 / s_)),
+    }
+    _LEMMAS[dim] = out
+    _LEMMAS[("made", dim)] = chk
+    return out
+
+
+def empty_and_validation(chk):
+    eng = chk.eng
+    cls = eng.get_class(MOD, "PeriodicGrid")
+    fq = f"{MOD}.PeriodicGrid.get_localgrid"
+    P = z3.Function("P", IS, IS, RS)
+
+    def thunk(eng_, kind):
+        def product(eng__, *ranges, **kw):
+            return [(z3.Int("j0"),)] if kind == "no-hit" else []
+
+        def query(eng__, center, radius, p=None):
+            return []
+        eng_.externals["itertools.product"] = product
+        try:
+            eng_.assume(N >= 1)
+            g = I.Obj(cls)
+            g.fields.update(_points=I.Arr((N, 2), lambda i, d: P(T.zi(i), T.zi(d)), "real"), _weights=I.Arr((N,), lambda i: z3.RealVal(1), "real"),
+                            _realvecs=arr2([[z3.Real("a00"), z3.Real("a01")]]), _recivecs=arr2([[z3.Real("g00"), z3.Real("g01")]]), _spacings=arr1([z3.Real("s0")]),
+                            _frac_intvls=arr2([[z3.Real("fmin0"), z3.Real("fmax0")]]), _kdtree=I.Opaque("kdtree", query_ball_point=I.Model("q", query)))
+            eng_.assume(z3.Real("s0") > 0)
+            if kind == "negative-radius":
+                eng_.assume(rad < 0)
+                return eng_.call_method(g, "get_localgrid", arr1([z3.Real("c0"), z3.Real("c1")]), rad)
+            eng_.assume(rad >= 0)
+            return eng_.call_method(g, "get_localgrid", arr1([z3.Real("c0"), z3.Real("c1")]), rad)
+        finally:
+            eng_.externals.pop("itertools.product", None)
+    for kind in ("no-hit", "no-translation"):
+        outs = chk.explore(f"get_localgrid/{kind}", lambda e, kind=kind: thunk(e, kind), func=fq)
+        chk.add(f"get_localgrid/{kind}/post/returns-a-LocalGrid", [], z3.BoolVal(bool(outs) and all(o.kind == "return" and o.value.cls.name == "LocalGrid" for o in outs)),
+                func=fq, meta={"replay": {"what": kind}})
+        for oi, o in enumerate(o_ for o_ in outs if o_.kind == "return"):
+            v = o.value
+            chk.add(f"get_localgrid/{kind}/post/empty-local-grid@{oi}", list(o.pc),
+                    z3.And(T.zi(v.fields["_points"].shape[0]) == 0, T.zi(v.fields["_weights"].shape[0]) == 0, T.zi(v.fields["_indices"].shape[0]) == 0,
+                           z3.BoolVal(v.fields["_indices"].dtype == "int")), func=fq, meta={"replay": {"what": kind}})
+    outs = chk.explore("get_localgrid/negative-radius", lambda e: thunk(e, "negative-radius"), func=fq)
+    chk.add("get_localgrid/raises/negative-radius", [], z3.BoolVal(bool(outs) and all(o.kind == "raise" and o.exc == "ValueError" for o in outs)), func=fq,
+            meta={"replay": {"what": "validation"}})
+
+
+def constructor_flat(chk):
+    """Flat 1-D points with one lattice vector of any sign: G a = 1, spacing = |a| > 0, fractional extent covers every point."""
+    eng = chk.eng
+    cls = eng.get_class(MOD, "PeriodicGrid")
+    fq = f"{MOD}.PeriodicGrid.__init__"
+    a = z3.Real("a")
+    X = z3.Function("X", IS, RS)
+    i0 = z3.Int("i0")
+    for wrap in (False,):
+        def thunk(eng_):
+            eng_.generic_indices = [i0]
+            eng_.assume(z3.And(N >= 1, i0 >= 0, i0 < N, a != 0))
+            g = eng_.new_object(cls, I.Arr((N,), lambda i: X(T.zi(i)), "real"), I.Arr((N,), lambda i: z3.RealVal(1), "real"), arr1([a]), wrap)
+            return g
+        for oi, o in enumerate(chk.explore(f"__init__/flat/wrap={wrap}", thunk, func=fq)):
+            if o.kind != "return":
+                chk.add(f"__init__/flat/post/constructs@{oi}", list(o.pc), z3.BoolVal(False), func=fq, assumptions=list(o.assumptions), meta={"replay": {"what": "constructor"}})
+                continue
+            g = o.value
+            G = T.zr(g.fields["_recivecs"].fn(0))
+            sp = T.zr(g.fields["_spacings"].fn(0))
+            fi = g.fields["_frac_intvls"]
+            hy, ax = list(o.pc), list(o.assumptions)
+            chk.add(f"__init__/flat/post/reciprocal-vector@{oi}", hy, G * a == 1, func=fq, assumptions=ax, meta={"replay": {"what": "constructor"}})
+            chk.add(f"__init__/flat/post/spacing-positive-for-any-sign@{oi}", hy, z3.And(sp > 0, sp * sp * G * G == 1), func=fq, assumptions=ax,
+                    meta={"replay": {"what": "constructor"}})
+            chk.add(f"__init__/flat/post/fractional-extent-covers-points@{oi}", hy, z3.And(T.zr(fi.fn(0, 0)) <= G * X(i0), G * X(i0) <= T.zr(fi.fn(0, 1))), func=fq,
+                    assumptions=ax, meta={"replay": {"what": "constructor"}})
+            chk.add(f"__init__/flat/post/tree-attribute@{oi}", [], z3.BoolVal(g.fields.get("_kdtree", 0) is None), func=fq, meta={"replay": {"what": "constructor"}})
 
 
 def build(chk):
-    return None
+    for dim, K, flat in ((1, 1, True), (2, 1, False), (2, 2, False), (3, 1, False), (3, 2, False), (3, 3, False)):
+        localgrid_case(chk, dim, K, flat)
+    empty_and_validation(chk)
+    constructor_flat(chk)
+
+
+def main(tier="quick", seed=0, bounded=True, proof=True):
+    chk = framework.Check("C11", tier, seed, level="proof")
+    chk.trusted += [
+        "itertools.product(range(lo_1, hi_1 + 1), ...) visits every integer vector of the box exactly once (assumed contract) => each (point, translation) pair "
+        "appears exactly once given completeness; cKDTree.query_ball_point returns exactly the points inside the displaced sphere",
+        "constructor postcondition for dimensions > 1 (G A^T = I from the SVD pseudo-inverse, spacings = 1/|g_k|, fractional extent): assumed here "
+        "(numpy.linalg.svd contract), checked natively by the bounded layer; the flat 1-D constructor is proved",
+        "floats are reals; ceil/floor as in pyvc.npfuncs",
+    ]
+    if proof:
+        build(chk)
+    return chk.finish(bounded_args=[] if (bounded and os.path.exists(os.path.join(framework.VERIF, "rtc", "C11.py"))) else None)
